@@ -42,10 +42,10 @@ PROP = {
                   "scan limit of unfiltered cursor reads, concurrent readers/writers (C05), host names holding a quote or a "
                   "backslash.",
     "tests": [
-        ("TestVFC07History", (80, 500), {"steps": 30}),
-        ("TestVFC07Layout", (80, 500)),
-        ("TestVFC07Params", (300, 3000)),
-        ("TestVFC07StoredLine", (1500, 20000)),
+        ("TestVFC07History", (80, 400), {"steps": 30}),
+        ("TestVFC07Layout", (80, 400)),
+        ("TestVFC07Params", (300, 2000)),
+        ("TestVFC07StoredLine", (1500, 15000)),
     ],
     "plain": ["TestVFC07RegressCursor", "TestVFC07RegressBounds", "TestVFC07RegressEscaped"],
     "shards": (4, 16),
